@@ -37,8 +37,17 @@ def setup(cx: Cx, ob: Ob):
             ok.append((p, fl))
         except Exception:  # noqa: BLE001
             continue
-    alpha = build_alphabet(ok + [(r"[A-Za-z_][A-Za-z0-9._\-]*", 0)], ":[]/\n")
-    return mod, StrLang(cx.model, mod, alpha)
+    import ast as _ast
+
+    kinds = set()
+    for f in mod.functions.values():
+        for n in _ast.walk(f.node):
+            if isinstance(n, _ast.Call) and isinstance(n.func, _ast.Attribute) and n.func.attr in ("casefold", "lower", "upper") and not n.args:
+                kinds.add(n.func.attr)
+    alpha = build_alphabet(ok + [(r"[A-Za-z_][A-Za-z0-9._\-]*", 0)], ":[]/\n", kinds)
+    sl = StrLang(cx.model, mod, alpha)
+    sl.fold_kinds = kinds
+    return mod, sl
 
 
 def reference_languages(sl: StrLang):
@@ -158,3 +167,46 @@ def x12(cx: Cx, ob: Ob) -> None:
     from ..rules import package_lints
 
     package_lints(cx, ob, {'api.py', 'w3c.py'})
+
+
+@thorough_extra("C20")
+def validate_fold_model():
+    """Validate the analyser's model of str.casefold / lower / upper views (preimage automata) against
+    the real str methods: for every pattern constant and every code point whose image differs from
+    itself, alone and embedded, the lifted automaton must agree with re.fullmatch(pattern, f(s))."""
+    import re
+    import time
+
+    from ..analyses.strlang import StrLang, build_alphabet, module_regexes, module_strings
+    from ..model import Model
+
+    t0 = time.time()
+    model = Model()
+    mod = model.module(W3C)
+    pats = sorted({p for p, _ in module_regexes(model, mod).values()} | {s for n, s in module_strings(model, mod).items() if n.endswith("PATTERN")} | {r"[a-z_][a-z0-9\.\-_]*"})
+    kinds = {"casefold", "lower", "upper"}
+    alpha = build_alphabet([(p_, 0) for p_ in pats], ":[]/\n", kinds)
+    sl = StrLang(model, mod, alpha)
+    sl.fold_kinds = kinds
+    n = bad = 0
+    changed = [cp for cp in range(0x110000) if not (0xD800 <= cp <= 0xDFFF) and (chr(cp).casefold() != chr(cp) or chr(cp).lower() != chr(cp) or chr(cp).upper() != chr(cp))]
+    for pat in pats:
+        try:
+            rx = re.compile(pat)
+            base = sl.L.regex(pat, "fullmatch")
+        except Exception:  # noqa: BLE001
+            continue
+        for kind in sorted(kinds):
+            lifted = sl.lift(base, ("fold", kind, ("whole",)))
+            f = getattr(str, kind)
+            for cp in changed:
+                for s_ in (chr(cp), "a" + chr(cp), chr(cp) + "1"):
+                    n += 1
+                    got = lifted.accepts([alpha.cls_of(x) for x in s_])
+                    want = bool(rx.fullmatch(f(s_)))
+                    if got != want:
+                        bad += 1
+                        if bad <= 3:
+                            print(f"ANALYSIS-ERROR property=C20 obligation=fold-model reason=model of {kind}() under {pat!r} disagrees with str.{kind} on {s_!r}")
+    print(f"fold model validation: {n} (pattern, method, string) comparisons against str.casefold/lower/upper, {bad} mismatches")
+    return (2 if bad else 0), {"fold_model_validation": {"strings_compared": n, "mismatches": bad, "code_points_with_nontrivial_image": len(changed), "wall_s": round(time.time() - t0, 2)}}
